@@ -77,13 +77,16 @@ CHECKS["C01"] = dict(
          "damage ray, the closed-form crossing is exactly the membership boundary, a point's life is 0 / unbounded / the "
          "crossing according to membership at 1 and 10^6 repetitions, and for any number of tubes and points the receiver "
          "life is the minimum: every point inside below it, the arg-min point outside above it.  Tied to "
-         "TimeFractionInteractionDamage / StructuralMaterial by exact and toleranced correspondence (envelope booleans, "
+         "TimeFractionInteractionDamage / StructuralMaterial twice: a translator regenerates the envelope test, the von Mises "
+         "and strain-range radicands, the lump rule, the strain table, the repetition bounds and the remaining one-line "
+         "formulas from damage.py / materials.py on every run, proved equal to the model's definitions (C01_formulas); and by "
+         "exact and toleranced correspondence (envelope booleans, "
          "supplied per-point damages, synthetic histories with a rational stub material) and by membership probes on the "
          "implementation with the shipped materials.",
     note="Trusted: Coq kernel; brentq (compared with the closed form at 1e-6); multiprocess imap order.  The last-cycle "
          "mode is proved in full for non-negative per-day damages (C01_last_cycle_life: the reported life is the first "
          "repetition count outside the envelope); its model is tied by correspondence.  Shipped Larson-Miller / fatigue look-ups are covered by C20, not modelled here.",
-    technique="Coq proof (order/real-closed-field style algebra over Q, list minima) + correspondence by vm_compute",
+    technique="Coq proof (order/real-closed-field style algebra over Q, list minima) + formulas regenerated from the source + correspondence by vm_compute",
     design="4/C01")
 CHECKS["C09"] = dict(
     text="Theorems: von Mises stress and equivalent strain range (as written in damage.py, incl. the engineering-shear "
